@@ -1,73 +1,77 @@
 """Repetition table rules (C10)."""
 from wa.mir import AnchorMissing, ShapeNotRecognised, callee_of
 from wa.expr import Exprs, show_expr, subexprs, strip_refs
-from wa.interp import eval_expr, walk, Unknown
+from wa.interp import Unknown
 from .uci_rules import leaf_terms
 
 IS3 = "draw_table::DrawTable::is_threefold_repetition"
 
 
-def _lookup_term(b, ex):
-    """The expression standing for `table[board.zobrist_key]` (count, default 0)."""
-    terms = set()
+def _decision_exprs(b, ex):
+    """Expressions the predicate's verdict depends on: switch discriminants and result values."""
+    from .search import return_sites
+    out = []
     for s in b.normal:
         if s in b.reachable and b.term(s)["k"] == "switch":
-            for x in leaf_terms(ex.switch_discr(s)):
-                terms.add(x)
-    for loc, st in b.iter_stmts():
-        if st["k"] == "assign" and st["place"]["local"] == 0 and not st["place"]["proj"]:
-            for x in leaf_terms(ex.rvalue(st["rv"], loc)):
-                terms.add(x)
-    return terms
+            out.append(ex.switch_discr(s))
+    for loc, st in return_sites(b):
+        out.append(ex.rvalue(st["rv"], loc) if st is not None else ex.call_expr(b.term(loc[0]), loc))
+    return out
+
+
+def _is_table_lookup(e):
+    """`self.table.get(&board.zobrist_key)` (the Option the count is read from)."""
+    if not (e[0] == "call" and (e[1].endswith("HashMap::<K, V, S, A>::get") or e[1].endswith("HashMap::<K, V, S, A>::get_mut")) and len(e[2]) == 2):
+        return False
+    tab, key = strip_refs(e[2][0]), strip_refs(e[2][1])
+    return tab[0] == "field" and tab[2] == "table" and key[0] == "field" and key[2] == "zobrist_key"
 
 
 def r10_3(ctx):
-    """is_threefold_repetition is true exactly when the looked-up count is >= 2 (upward closed)."""
+    """is_threefold_repetition is true exactly when the looked-up count is >= 2 (upward closed); an
+    absent entry counts as 0.  Evaluated for every state of the entry, through whatever Option
+    combinators / helper the source uses."""
+    from wa import optinterp as oi
+    from .search import return_carriers
     f = ctx.facts
     b = f.body(IS3)
     ctx.note_fn(IS3)
     ex = Exprs(b)
-    terms = _lookup_term(b, ex)
-    if len(terms) != 1:
-        lookups = [t for t in terms if any(s[0] == "call" and s[1].endswith("::get") for s in subexprs(t))]
-        others = [t for t in terms if t not in lookups]
-        if len(lookups) == 1 and others:
-            ctx.ob("is_threefold_repetition:depends-only-on-count", False, b.where((0, 0)),
-                   "the repetition predicate also depends on `%s`: whether a position counts as repeated must depend on its count alone" % show_expr(others[0], b)[:80])
-            return
-        raise ShapeNotRecognised("is_threefold_repetition decides on %d distinct terms: %s" % (
-            len(terms), [show_expr(t, b)[:60] for t in terms]))
-    x = next(iter(terms))
-    calls = [s for s in subexprs(x) if s[0] == "call"]
-    get = [c for c in calls if c[1].endswith("HashMap::<K, V, S, A>::get") or c[1].endswith("::get")]
-    uo = [c for c in calls if c[1].endswith("::unwrap_or")]
-    ok_shape = bool(get) and bool(uo)
-    if ok_shape:
-        g = get[0]
-        keyarg = strip_refs(g[2][1]) if len(g[2]) > 1 else None
-        ok_shape = keyarg is not None and keyarg[0] == "field" and keyarg[2] == "zobrist_key"
-        dflt = strip_refs(uo[0][2][1])
-        ok_shape = ok_shape and dflt == ("const", 0)
-    if not ok_shape:
-        raise ShapeNotRecognised("count is not `*table.get(&board.zobrist_key).unwrap_or(&0)`: %s" % show_expr(x, b)[:120])
-    true_set = []
-    for v in range(256):
+    decisions = _decision_exprs(b, ex)
+    lookups = set()
+    for d in decisions:
+        for x in subexprs(d):
+            if x[0] == "call" and x[1].endswith("::get") and "HashMap" in x[1]:
+                lookups.add(x)
+    # what else the verdict reads: maximal non-arithmetic terms that do not contain the lookup
+    others = []
+    for d in decisions:
+        for t in leaf_terms(d):
+            if not any(x in lookups for x in subexprs(t)):
+                others.append(t)
+    if len(lookups) == 1 and others:
+        ctx.ob("is_threefold_repetition:depends-only-on-count", False, b.where((0, 0)),
+               "the repetition predicate also depends on `%s`: whether a position counts as repeated must depend on its count alone" % show_expr(others[0], b)[:80])
+        return
+    if len(lookups) != 1:
+        raise ShapeNotRecognised("is_threefold_repetition decides on %d table lookups: %s" % (
+            len(lookups), [show_expr(t, b)[:60] for t in lookups]))
+    g = next(iter(lookups))
+    if not _is_table_lookup(g):
+        raise ShapeNotRecognised("count is not read by `self.table.get(&board.zobrist_key)`: %s" % show_expr(g, b)[:120])
+    carriers = return_carriers(b)
+
+    def verdict(state):
+        env = {g: state}
         try:
-            rb, path = walk(b, ex, {x: v})
+            rb, path = oi.walk(b, ex, env, f)
+            if rb is None:
+                raise ShapeNotRecognised("path does not return for entry state %r" % (state,))
+            return bool(oi.path_value(b, ex, path, env, f, carriers))
         except Unknown as e:
             raise ShapeNotRecognised("cannot evaluate %r" % (e,))
-        if rb is None:
-            raise ShapeNotRecognised("path does not return for count=%d" % v)
-        # value of _0: last assignment to _0 on the path
-        val = None
-        for pb in path:
-            for i, st in enumerate(b.stmts(pb)):
-                if st["k"] == "assign" and st["place"]["local"] == 0 and not st["place"]["proj"]:
-                    val = eval_expr(ex.rvalue(st["rv"], (pb, i)), {x: v})
-        if val is None:
-            raise ShapeNotRecognised("no return value on path for count=%d" % v)
-        if val:
-            true_set.append(v)
+    true_set = [v for v in range(256) if verdict(oi.some(v))]
+    absent = verdict(oi.NONE)
     want = list(range(2, 256))
     def fmt(s):
         if not s:
@@ -79,8 +83,9 @@ def r10_3(ctx):
                 st_ = v
             prev = v
         return "{" + ", ".join(runs) + "}"
-    ctx.ob("is_threefold_repetition:true-set", true_set == want, b.where((0, 0)),
-           "evaluated for every count 0..=255: reports a repetition for counts %s; the property needs exactly %s (a position seen at least twice before)" % (fmt(true_set), fmt(want)))
+    ctx.ob("is_threefold_repetition:true-set", true_set == want and not absent, b.where((0, 0)),
+           "evaluated for every count 0..=255: reports a repetition for counts %s%s; the property needs exactly %s (a position seen at least twice before)" % (
+               fmt(true_set), " and for a position that was never recorded" if absent else "", fmt(want)))
 
 
 # ---- R10.1 / R10.2 / R10.4 / R10.6 ---------------------------------------------------------------
@@ -162,8 +167,9 @@ def r10_12(ctx):
     rets = pb.return_blocks()
     inner_clears = {bb for bb, k in ptc.items() if k == "clear"}
     populate = {bb for bb, k in ptc.items() if k in ("insert", "add_board_to_draw_table")}
-    cleared_inside = bool(inner_clears) and all(not pb.reaches(0, r, removed_nodes=inner_clears) for r in rets) and \
-        all(not pb.reaches(0, p, removed_nodes=inner_clears) for p in populate)
+    # (the entry block itself may be the clearing call)
+    cleared_inside = bool(inner_clears) and (0 in inner_clears or (all(not pb.reaches(0, r, removed_nodes=inner_clears) for r in rets) and
+                                                                  all(not pb.reaches(0, p, removed_nodes=inner_clears) for p in populate)))
     ctx.ob("position:table-cleared-before-rebuild", cleared_in_arm or cleared_inside, lb.where(lb.term_loc(pbb)),
            "cleared in the `position` arm before play_out_position: %s; cleared inside play_out_position on every path before anything is recorded: %s" % (cleared_in_arm, cleared_inside))
     # start position recorded once on every path to return
@@ -176,7 +182,7 @@ def r10_12(ctx):
             ok_val = args[2] == ("const", 1)
             if ok_key and ok_val:
                 ins.append(bb)
-    ok = bool(ins) and all(not pb.reaches(0, r, removed_nodes=set(ins)) for r in rets) and rets
+    ok = bool(ins) and (0 in ins or all(not pb.reaches(0, r, removed_nodes=set(ins)) for r in rets)) and rets
     ctx.ob("play_out_position:start-position-recorded", bool(ok), pb.where(pb.term_loc(ins[0])) if ins else pb.file,
            "every path to return records the start position with count 1 (insert(board.zobrist_key, 1)); %s" % (
                "holds" if ok else "NOT on all paths: some `position` commands leave the record without their own start position"))
@@ -202,6 +208,67 @@ def r10_12(ctx):
     ctx.floor("make_move calls in play_out_position", len(mm), 1)
 
 
+def _is_key(e):
+    e = strip_refs(e)
+    return e[0] == "field" and e[2] == "zobrist_key"
+
+
+def _table_stores(b, ex):
+    """Every way the method changes a count in the map, normalised to
+    (loc, key expr, delta or None, reads-same-key, default-ok, description):
+      * `table.insert(key, <count read for key> + d)`
+      * `*p = *p + d` through a pointer p to the entry of `key`
+        (`entry(key).or_insert(0)` / `.or_default()`, `get_mut(&key)` payload)."""
+    out = []
+    for bb, t in b.iter_calls():
+        if not (callee_of(t) or "").endswith("HashMap::<K, V, S, A>::insert"):
+            continue
+        args = ex.call_args(bb)
+        keye = strip_refs(args[1])
+        le = linear(args[2])
+        delta, same, dflt = None, False, True
+        if le is not None and len(le[0]) == 1:
+            (term, cf), = le[0].items()
+            if cf == 1:
+                delta = le[1]
+                gets = [x for x in subexprs(term) if x[0] == "call" and x[1].endswith("::get")]
+                same = any(strip_refs(g[2][1]) == keye for g in gets)
+                for x in subexprs(term):
+                    if x[0] == "call" and x[1].endswith("::unwrap_or") and strip_refs(x[2][1]) != ("const", 0):
+                        dflt = False
+        out.append((b.term_loc(bb), keye, delta, same, dflt, "insert(%s)" % show_expr(args[2], b)[:70]))
+    for loc, st in b.iter_stmts():
+        if st["k"] != "assign":
+            continue
+        pl = st["place"]
+        if not (len(pl["proj"]) == 1 and pl["proj"][0]["k"] == "deref" and b.local_ty(pl["local"]).startswith("&mut ")):
+            continue
+        p = pl["local"]
+        if p <= b.arg_count:
+            continue
+        e = ex.rvalue(st["rv"], loc)
+        le = linear(e)
+        delta = None
+        if le is not None and len(le[0]) == 1:
+            (term, cf), = le[0].items()
+            if cf == 1 and term[0] == "mem" and term[1] == p:
+                delta = le[1]
+        pe = strip_refs(ex.local(p, loc))
+        keye, same, dflt = ("opaque", "?"), False, True
+        src = None
+        for x in subexprs(pe):
+            if x[0] == "call" and (x[1].endswith("HashMap::<K, V, S, A>::entry") or x[1].endswith("HashMap::<K, V, S, A>::get_mut")) and len(x[2]) == 2:
+                src = x
+        if src is not None:
+            keye = strip_refs(src[2][1])
+            same = True
+            if src[1].endswith("::entry"):
+                ins = [x for x in subexprs(pe) if x[0] == "call" and "hash_map::Entry" in x[1]]
+                dflt = bool(ins) and all((x[1].endswith("::or_insert") and strip_refs(x[2][1]) == ("const", 0)) or x[1].endswith("::or_default") for x in ins)
+        out.append((loc, keye, delta, same, dflt, "*entry = %s" % show_expr(e, b)[:70]))
+    return out
+
+
 def r10_4(ctx):
     """add stores old+1, remove stores old-1 at board.zobrist_key (old defaults to 0 in add)."""
     f = ctx.facts
@@ -209,25 +276,15 @@ def r10_4(ctx):
         b = f.body(fn)
         ctx.note_fn(fn)
         ex = Exprs(b)
-        ins = [(bb, t) for bb, t in b.iter_calls() if (callee_of(t) or "").endswith("HashMap::<K, V, S, A>::insert")]
         short = fn.split("::")[-1]
-        if len(ins) != 1:
-            ctx.ob("%s:one-store" % short, False, b.file, "%d stores into the table" % len(ins))
+        stores = _table_stores(b, ex)
+        if len(stores) != 1:
+            ctx.ob("%s:one-store" % short, False, b.file, "%d stores into the table" % len(stores))
             continue
-        bb, t = ins[0]
-        args = ex.call_args(bb)
-        keye = strip_refs(args[1])
-        ok_key = keye[0] == "field" and keye[2] == "zobrist_key"
-        le = linear(args[2])
-        ok_val = False
-        desc = show_expr(args[2], b)[:80]
-        if le is not None and le[1] == delta and len(le[0]) == 1:
-            (term, cf), = le[0].items()
-            gets = [x for x in subexprs(term) if x[0] == "call" and x[1].endswith("::get")]
-            samekey = any(strip_refs(g[2][1]) == keye for g in gets)
-            ok_val = cf == 1 and samekey
-        ctx.ob("%s:stores-count%+d" % (short, delta), ok_key and ok_val, b.where(b.term_loc(bb)),
-               "stores `%s` at board.zobrist_key; must be the count read for the same key %+d" % (desc, delta))
+        loc, keye, d, same, dflt, desc = stores[0]
+        ok = _is_key(keye) and same and d == delta and (dflt or delta < 0)
+        ctx.ob("%s:stores-count%+d" % (short, delta), ok, b.where(loc),
+               "stores `%s` at board.zobrist_key; must be the count read for the same key %+d%s" % (desc, delta, "" if dflt else " (a new entry must start from 0)"))
 
 
 def r10_7(ctx):
@@ -259,12 +316,9 @@ def r10_6(ctx):
     ctx.note_fn(ABS)
     ex = Exprs(b)
     tests = {bb for bb, t in b.iter_calls(callee=IS3)}
-    abort_edges = set()
-    for s in b.normal:
-        if s in b.reachable and b.term(s)["k"] == "switch":
-            d = ex.switch_discr(s)
-            if d[0] == "call" and d[1] == OOT:
-                abort_edges.add((s, b.term(s)["otherwise"]))
+    from .search import ot_edges
+    # the expired edge of the clock test, also when the test goes through a named / composed boolean
+    abort_edges = {(s, tg) for s, tg, truth, cb, fresh, lastdefs, own in ot_edges(b, ex, own_only=False) if truth is True}
     rets = b.return_blocks()
     bad = [r for r in rets if b.reaches(0, r, removed_nodes=tests, removed_edges=abort_edges)]
     where = b.file
@@ -288,9 +342,10 @@ def r10_8(ctx):
     f = ctx.facts
     b = f.body("uci::find_and_play_best_move")
     ctx.note_fn("uci::find_and_play_best_move")
-    tp = [i for i in range(1, b.arg_count + 1) if b.local_ty(i) == "&mut draw_table::DrawTable"]
+    # the record is borrowed from the session: `&mut DrawTable`, or `&DrawTable` (which cannot be written through at all)
+    tp = [i for i in range(1, b.arg_count + 1) if b.local_ty(i) in ("&mut draw_table::DrawTable", "&draw_table::DrawTable")]
     if len(tp) != 1:
-        raise ShapeNotRecognised("find_and_play_best_move(.., draw_table: &mut DrawTable)")
+        raise ShapeNotRecognised("find_and_play_best_move(.., draw_table: &[mut] DrawTable)")
     uses = []
     for bb, t in b.iter_calls():
         for a in t["args"]:
